@@ -84,6 +84,24 @@ def d32_class(cmd, rec, want, real):
     return not (w - r) and bool(r - w) and all(x[1] == cmd["tag"] and x[2] == cmd["name"] and x[3] == f for x in r - w)
 
 
+def observations(rec, m):
+    """(implementation, model) observables of one step: outcome, flavors loaded per stack, reader's listing"""
+    impl_obs = {"out": rec["out"], "loaded": rec.get("loaded"), "db": rec["db"]}
+    model_obs = None if m is None else {"out": m["out"], "loaded": m["loaded"] if rec.get("loaded") is not None else None,
+                                        "db": m["db"]}
+    if m is not None and m.get("crashed") and rec["out"] == "Crashed":
+        model_obs["out"] = "Crashed"
+    return impl_obs, model_obs
+
+
+def oracle_i(ctx, i, sub, rec, impl_obs, model_obs):
+    if model_obs is not None and common.jdump(model_obs) != common.jdump(impl_obs):
+        which = [k for k in ("out", "loaded", "db") if common.jdump(model_obs[k]) != common.jdump(impl_obs[k])]
+        ctx.disagree("+".join(which), sub, impl_obs, model_obs, note="step %d %s" % (i, rec.get("detail", "")))
+        return False
+    return True
+
+
 def check_case(ctx, case, steps, msteps):
     """Both oracles on one history.  steps = implementation records, msteps = model records."""
     dirs = [d for d in lib_db.all_dirs() if d not in case.get("missing", [])]
@@ -95,9 +113,7 @@ def check_case(ctx, case, steps, msteps):
         m = msteps[i] if msteps and i < len(msteps) else None
         real = rec["db"]
         sub = {"missing": inp["missing"], "cmds": case["cmds"][:i + 1]}
-        impl_obs = {"out": rec["out"], "loaded": rec.get("loaded"), "db": real}
-        model_obs = None if m is None else {"out": m["out"], "loaded": m["loaded"] if rec.get("loaded") is not None else None,
-                                            "db": m["db"]}
+        impl_obs, model_obs = observations(rec, m)
         ctx.hist("cmd=%s/%s" % (kind_of(cmd), rec["out"]))
         if cmd.get("noaction"):
             ctx.hist("dry-run")
@@ -109,9 +125,7 @@ def check_case(ctx, case, steps, msteps):
         if rec["out"] != "ok":
             nerr += 1
         # ---- oracle (i) ---------------------------------------------------------------------------
-        if model_obs is not None and common.jdump(model_obs) != common.jdump(impl_obs):
-            which = [k for k in ("out", "loaded", "db") if common.jdump(model_obs[k]) != common.jdump(impl_obs[k])]
-            ctx.disagree("+".join(which), sub, impl_obs, model_obs, note="step %d %s" % (i, rec.get("detail", "")))
+        oracle_i(ctx, i, sub, rec, impl_obs, model_obs)
         # ---- oracle (ii): state clauses ------------------------------------------------------------
         dt = dangling_tags(real)
         if dt:
